@@ -71,6 +71,22 @@ t("sigpy/thresh.py", [176, 173, 59], "P", "hard_thresh (not the prox of a convex
 t("sigpy/thresh.py", [93], "E", "a candidate equal to the threshold does not change the threshold")
 
 
+t("sigpy/alg.py", [426], "P", "the reported residual (used only against tol; the checks run tol = 0)")
+t("sigpy/app.py", [314], "P", "preconditioner / tolerance not forwarded: conjugate gradient still returns the minimiser of the documented objective")
+t("sigpy/app.py", [363], "E", "an l2 term with lamda = 0")
+t("sigpy/linop.py", [836], "E", "zip stops at the shortest argument")
+t("sigpy/mri/app.py", [395, 419, 455, 363], "P", "JsenseRecon (no listed property beyond the protocol clause of C15)")
+t("sigpy/mri/linop.py", [63], "E", "ishape equals the default the callee derives from the maps")
+t("sigpy/mri/linop.py", [117], "E", "communicator branch (not reachable without MPI)")
+
+
+t("sigpy/alg.py", [189], "P", "momentum sequence that still satisfies the O(1/k^2) bound of C13 on every instance (the bound is the property)")
+t("sigpy/app.py", [334], "P", "observable only for lamda exactly 1 (the instances use lamda in {0, 0.4})")
+t("sigpy/app.py", [388], "E", "an l2 term with lamda = 0")
+t("sigpy/mri/app.py", [459], "P", "JsenseRecon (no listed property beyond the protocol clause of C15)")
+t("sigpy/mri/linop.py", [72], "E", "communicator branch (not reachable without MPI)")
+
+
 def main():
     recs = []
     for f in sorted(glob.glob(os.path.join(HERE, "*.jsonl"))):
